@@ -61,14 +61,40 @@ DEFAULT_PROFILE = {
     "max_main": 6, "max_depth": 2, "expr_depth": 2,
     # exclusions by construction for open known findings (names are referenced from known_findings.json)
     "no_falsy_left_of_default": False,
+    "no_match_binding_in_float_op": False,
     "no_own_class_typed_method_param": False,
 }
+
+
+_OPEN_SWITCHES = None
+
+
+def open_finding_switches():
+    """Generator switches of ALL open known findings (whatever property lists them): a genuine defect that one
+    property records must not make the checks of the other properties flicker."""
+    global _OPEN_SWITCHES
+    if _OPEN_SWITCHES is None:
+        import json
+        import os
+        out = {}
+        path = "/verif/known_findings.json"
+        if os.path.exists(path):
+            with open(path) as fh:
+                for f in json.load(fh).get("findings", []):
+                    if f.get("status") == "open":
+                        for sw in f.get("excluded_by", []) or []:
+                            name = sw.split(".", 1)[-1]
+                            if name in DEFAULT_PROFILE:
+                                out[name] = True
+        _OPEN_SWITCHES = out
+    return _OPEN_SWITCHES
 
 
 class G:
     def __init__(self, draw, profile=None):
         self.draw = draw
         self.p = dict(DEFAULT_PROFILE)
+        self.p.update(open_finding_switches())
         if profile:
             self.p.update(profile)
         self.n = 0
@@ -78,6 +104,8 @@ class G:
         self.items = []
         self.excluded = {}
         self.list_len = {}
+        self.tainted = set()      # match bindings (see no_match_binding_in_float_op)
+        self.avoid = set()
         self.stmt_budget = 22     # statements per program (the checker's cost is steeply super-linear)
         self.branch_budget = 5    # if / match / loops / handle constructs per program
 
@@ -170,7 +198,8 @@ class G:
     def atom(self, ty, sc):
         """literal, variable, field or index of that type (always STRONG)."""
         opts = [(3, "lit")]
-        if sc.of_type(ty):
+        usable = [n for n in sc.of_type(ty) if n not in self.avoid]
+        if usable:
             opts.append((5, "var"))
         fields = self.field_sources(ty, sc)
         if fields:
@@ -180,7 +209,7 @@ class G:
             opts.append((1, "index"))
         k = self.weighted(opts)
         if k == "var":
-            return ("var", ty, self.pick(sc.of_type(ty)))
+            return ("var", ty, self.pick(usable))
         if k == "field":
             recv, f = self.pick(fields)
             return ("field", ty, recv, f)
@@ -319,6 +348,18 @@ class G:
             return ("dflt", INT, ("var", TOpt(INT), name), self.nonfalsy_default(INT, sc, d))
         raise AssertionError(k)
 
+    def untainted(self, thunk):
+        """Run a sub-generation in which match bindings are not used (open finding F32), counting redirections."""
+        if not self.p["no_match_binding_in_float_op"] or not self.tainted:
+            return thunk()
+        old = self.avoid
+        self.avoid = set(self.tainted)
+        self.excluded["no_match_binding_in_float_op"] = self.excluded.get("no_match_binding_in_float_op", 0) + 1
+        try:
+            return thunk()
+        finally:
+            self.avoid = old
+
     def nonfalsy_default(self, ty, sc, d):
         return self.expr(ty, sc, d, True)
 
@@ -338,12 +379,12 @@ class G:
             if op == "/":
                 right = self.pick([("lit", FLOAT, 2.0), ("lit", FLOAT, 0.5), ("lit", INT, 4), ("lit", FLOAT, 1.25)])
             elif self.chance(30):
-                right = self.int_expr(sc, d, False)
+                right = self.untainted(lambda: self.int_expr(sc, d, False))
             else:
                 right = self.float_expr(sc, d, False)
             return ("bin", FLOAT, op, left, right)
         if k == "div":
-            return ("bin", FLOAT, "/", self.int_expr(sc, d, True), ("lit", INT, self.int(1, 8)))
+            return ("bin", FLOAT, "/", self.untainted(lambda: self.int_expr(sc, d, True)), ("lit", INT, self.int(1, 8)))
         if k == "call":
             return self.call_expr(FLOAT, sc, d, self.cur_declared) or self.atom(FLOAT, sc)
         if k == "conv":
@@ -408,6 +449,8 @@ class G:
                 lt, rt = self.pick([(FLOAT, FLOAT), (FLOAT, INT), (INT, FLOAT)])
             else:
                 lt, rt = INT, INT
+            if lt != rt:
+                return self.untainted(lambda: ("cmp", BOOL, op, self.expr(lt, sc, d, True), self.expr(rt, sc, d, False)))
             return ("cmp", BOOL, op, self.expr(lt, sc, d, True), self.expr(rt, sc, d, False))
         if k == "eq":
             t = self.pick([INT, INT, BOOL] + ([STR] if self.p["strings"] else []))
@@ -701,6 +744,7 @@ class G:
             b = self.fresh("m")
             bs = Scope(sc)
             bs.add(b, t, False)
+            self.tainted.add(b)
             arms.append((("bind", b), self.block(bs, ctx.deeper(), 1, 2)))
         return [("match", subj, arms)]
 
@@ -999,6 +1043,7 @@ class G:
                 b = self.fresh("m")
                 s1 = Scope(sc)
                 s1.add(b, t, False)
+                self.tainted.add(b)
                 arms.append((("bind", b), (self.block(s1, ctx.deeper(), 0, 1), self.gen_tail(ret, s1, ctx.deeper(), 0))))
             else:
                 s1 = Scope(sc)
